@@ -188,6 +188,7 @@ def register_unit_execute(R, prop):
         max_paths=20000,
         ghost={"dfa": 0, "worst": -1, "saw_error_event": False, "should_count": 0, "counted": 0, "forwarded": 0, "got": 0, "last_get": "none", "pending": 0, "last_event": None, "pool": None, "engine": None},
         yield_effect=yield_effect,
+        yield_interference={"engine.control.stop_event.flag": "set"},  # the consumer may call EventStream.stop() while it handles any event
         invariants={0: inv},
         ensures=_only(prop, ensures),
         replayable=False,
@@ -257,6 +258,8 @@ def register_plan(R, prop):
         args={"self": Obj(CORE + "ExecutionPlan", phases=Seq(PhaseEl, kind="list")), "engine": Engine(abstract_limit=True, start_time=Real)},
         ghost={"dfa": 0, "open_phase": None, "finished": 0, "limit_rule_ok": True, "limit_at_start": False, "ran_inner_after_limit": False, "started": 0},
         yield_effect=yield_effect,
+        # the consumer of the stream may call EventStream.stop() while it handles ANY event: the stop flag may become set at every yield
+        yield_interference={"engine.control.stop_event.flag": "set"},
         invariants={0: inv},
         ensures=_only(prop, ensures),
         replayable=False,
@@ -748,6 +751,7 @@ def register_stateful_execute(R, prop):
         args={"engine": Engine(abstract_limit=True, schema=Obj("spec:StatefulSchema")), "phase": Obj(PHASES + "Phase", name=EnumOf(PHASES + "PhaseName", ["STATEFUL_TESTING"]), is_supported=Bool, is_enabled=Bool, skip_reason=NoneT)},
         ghost={"dfa": 0, "worst": -1, "forwarded": 0, "got": 0, "last_get": "none", "pending": 0, "last_event": None, "thread": None, "started": 0, "joined": 0, "alive_answer": None, "machine_error": None},
         yield_effect=yield_effect,
+        yield_interference={"engine.control.stop_event.flag": "set"},  # the consumer may call EventStream.stop() while it handles any event
         invariants={0: inv},
         ensures=_only(prop, ensures),
         raises=[],
